@@ -686,7 +686,9 @@ impl ChainBox {
 					(Some(h), Some(hh)) => h.last_block_h != hh.last_block_h,
 					_ => false,
 				};
-				if diverged && nrd_on_best_chain && e.contains("get header hash by height") {
+				// two manifestations of the one call site: the walk by height runs out of headers, or it attributes
+				// kernels to the header-chain fork's heights and then trips over its own relative-height rule
+				if diverged && nrd_on_best_chain && (e.contains("get header hash by height") || e.contains("NRDRelativeHeight")) {
 					Err(Fail::new(
 						"reopen-failed:nrd-index-rebuilt-along-header-chain-fork",
 						format!(
@@ -697,7 +699,10 @@ impl ChainBox {
 						),
 					))
 				} else {
-					Err(Fail::new("reopen-failed", e))
+					Err(Fail::new(
+						"reopen-failed",
+						format!("{} [body head {:?}, header head {:?}, heads on different forks: {}, NRD kernels on the best chain: {}]", e, head.map(|h| (h.height, h.last_block_h)), hhead.map(|h| (h.height, h.last_block_h)), diverged, nrd_on_best_chain),
+					))
 				}
 			}
 		}
